@@ -86,6 +86,9 @@ func (h *hwire) hit(site string) bool {
 type bankDec struct {
 	h *hwire
 	bankkeeper.Keeper
+	// the instance handed to the keeper (whose only send is the adapter's sweep): its sends are registered under the sweep's own
+	// site name, the one the model uses for that call
+	sweep bool
 }
 
 func (b bankDec) SendCoinsFromModuleToModule(ctx context.Context, from, to string, amt sdk.Coins) error {
@@ -96,7 +99,11 @@ func (b bankDec) SendCoinsFromModuleToModule(ctx context.Context, from, to strin
 }
 
 func (b bankDec) SendCoins(ctx context.Context, from, to sdk.AccAddress, amt sdk.Coins) error {
-	if b.h.hit("bank.SendCoins") {
+	site := "bank.SendCoins"
+	if b.sweep {
+		site = "bank.SendCoinsFromModuleToModule"
+	}
+	if b.h.hit(site) {
 		return errInjected
 	}
 	return b.Keeper.SendCoins(ctx, from, to, amt)
@@ -264,7 +271,7 @@ func (s *appState) ensureHW() error {
 		evs,
 		runtime.NewKVStoreService(a.GetKey(core.ModuleName)),
 		a.OrbiterKeeper.Authority(),
-		bank,
+		bankDec{h: h, Keeper: a.BankKeeper, sweep: true},
 	)
 	// as depinject.go:InjectActionControllers
 	fee, err := actionctrl.NewFeeController(k.Executor().Logger(), k.Executor().EventService(), bank)
